@@ -959,26 +959,31 @@ Definition nonadv (f : file) : Prop :=
 Definition alladv (f : file) : Prop :=
   forall b h, In (Some b) (f_batches f) -> b_header b = Some h -> sec_eqb (h_sec h) ADV = true.
 
+(* File.IsADV leaves the first batch with a BatchControl, ADV or not *)
+Definition head_ctl (f : file) : Prop :=
+  match f_batches f with Some b :: _ => b_control b = true | _ => True end.
+
 Lemma is_adv_loop_spec l o :
   Forall (fun x => exists t, x = Some t /\ WB t) l ->
   match is_adv_loop l o with
   | OK r l' _ => Forall (fun x => exists t, x = Some t /\ WB t) l' /\
+                 match l' with Some b :: _ => b_control b = true | _ => True end /\
                  (r = false -> forall b h, In (Some b) l' -> b_header b = Some h -> sec_eqb (h_sec h) ADV = false)
   | ERR l' _ => Forall (fun x => exists t, x = Some t /\ WB t) l'
   | PANIC => False
   end.
 Proof.
   induction l as [|x t IH]; intros Hl; cbn [is_adv_loop].
-  - split; [constructor|]. intros _ b h [].
+  - split; [constructor|]. split; [exact I|]. intros _ b h [].
   - inversion Hl as [|? ? (b & -> & Wb) Ht]; subst.
     destruct (wf_batch_bwf b Wb) as (h & W). rewrite (bw_h _ _ W).
     assert (W1 : WB (set_control true (set_header (Some h) b))).
     { apply (bwf_wf_batch _ h). destruct W as [Hh Hc He Ha Hs]. split; cbn; auto.
       destruct (sec_eqb (h_sec h) ADV); [exact Hc|reflexivity]. }
     destruct (sec_eqb (h_sec h) ADV) eqn:Hadv.
-    + split; [constructor; [eauto|exact Ht]|]. discriminate.
+    + split; [constructor; [eauto|exact Ht]|]. split; [reflexivity|discriminate].
     + specialize (IH Ht). destruct (is_adv_loop t o) as [r t' o'|t' o'|]; [|constructor; [eauto|exact IH]|exact IH].
-      destruct IH as [IH1 IH2]. split; [constructor; [eauto|exact IH1]|].
+      destruct IH as (IH1 & _ & IH2). split; [constructor; [eauto|exact IH1]|]. split; [reflexivity|].
       intros Hr b' h' [[= <-]|Hin] Hh'.
       * cbn in Hh'. injection Hh' as <-. exact Hadv.
       * exact (IH2 Hr b' h' Hin Hh').
@@ -989,8 +994,17 @@ Proof.
   intros f o Wf. unfold file_is_adv, zoom.
   pose proof (is_adv_loop_spec (f_batches f) o (WF_batches f Wf)) as H.
   destruct (is_adv_loop (f_batches f) o) as [r l' o'|l' o'|]; [|exact (WF_intro _ _ H (WF_iat f Wf))|exact H].
-  destruct H as [H1 H2]. split; [exact (WF_intro _ _ H1 (WF_iat f Wf))|].
+  destruct H as (H1 & _ & H2). split; [exact (WF_intro _ _ H1 (WF_iat f Wf))|].
   intros Hr b h Hin Hh. exact (H2 Hr b h Hin Hh).
+Qed.
+
+Lemma file_is_adv_head : hoare WF file_is_adv (fun r f => (WF f /\ head_ctl f) /\ (r = false -> nonadv f)) WF.
+Proof.
+  intros f o Wf. unfold file_is_adv, zoom.
+  pose proof (is_adv_loop_spec (f_batches f) o (WF_batches f Wf)) as H.
+  destruct (is_adv_loop (f_batches f) o) as [r l' o'|l' o'|]; [|exact (WF_intro _ _ H (WF_iat f Wf))|exact H].
+  destruct H as (H1 & Hh & H2). split; [split; [exact (WF_intro _ _ H1 (WF_iat f Wf))|exact Hh]|].
+  intros Hr b h Hin Hh'. exact (H2 Hr b h Hin Hh').
 Qed.
 
 Definition advp (adv : bool) (f : file) : Prop := if adv then alladv f else nonadv f.
@@ -1135,6 +1149,24 @@ Qed.
 
 End FileRO.
 
+(* Validate and Create, with the extra fact that the first batch keeps / receives its BatchControl *)
+Definition WFH (f : file) : Prop := WF f /\ head_ctl f.
+
+Lemma file_validate_head : hoare WFH file_validate (fun _ => WFH) WF.
+Proof.
+  unfold file_validate.
+  eapply hoare_bind; [apply hoare_flip|]. intros run. destruct run; cbn [negb]; [|apply hoare_ret; auto].
+  eapply hoare_bind with (Q := fun _ => WFH).
+  { eapply hoare_bind; [apply hoare_flip|]. intros [|]; cbn [when]; [|apply hoare_ret; auto].
+    unfold check. eapply hoare_bind; [apply hoare_flip|]. intros [|]; [apply hoare_ret; auto|apply hoare_fail; intros s [Hs _]; exact Hs]. }
+  intros _. eapply hoare_bind; [eapply hoare_conseq; [apply file_is_adv_head| | |]; [intros s [Hs _]; exact Hs|intros a s Hq; exact Hq|auto]|].
+  intros adv.
+  apply hst_of. intros f [[Wf Hh] Hn]. apply hst_get. pose proof (wf_file_fwf f Wf) as W.
+  destruct adv; cbn [negb].
+  - eapply hst_ro_end; [apply (validate_body_adv_safe f W)|exact Wf|]. intros _ _. split; assumption.
+  - eapply hst_ro_end; [apply (validate_body_nonadv_safe f W (Hn eq_refl))|exact Wf|]. intros _ _. split; assumption.
+Qed.
+
 Lemma file_validate_inv : hoare WF file_validate (fun _ => WF) WF.
 Proof.
   unfold file_validate.
@@ -1148,7 +1180,7 @@ Proof.
   - eapply hst_ro_end; [apply (validate_body_nonadv_safe f W (Hn eq_refl))|exact Wf|]. intros _ _. exact Wf.
 Qed.
 
-Lemma file_create_inv : hoare WF file_create (fun _ => WF) WF.
+Lemma file_create_head : hoare WF file_create (fun _ => WFH) WF.
 Proof.
   unfold file_create.
   eapply hoare_bind; [apply hoare_flip|]. intros run.
@@ -1160,12 +1192,15 @@ Proof.
     { eapply hoare_bind; [apply hoare_flip|]. intros [|]; cbn [when]; [apply hoare_check|apply hoare_ret; auto]. }
     intros _. eapply hoare_bind; [apply hoare_flip|]. intros [|]; cbn [when]; [|apply hoare_ret; auto].
     destruct (f_batches f0), (f_iat f0); first [apply hoare_fail; auto | apply hoare_ret; auto]. }
-  intros _. eapply hoare_bind; [apply file_is_adv_inv|]. intros adv.
-  apply hst_of. intros f [Wf Hn]. apply hst_get. pose proof (wf_file_fwf f Wf) as W.
+  intros _. eapply hoare_bind; [apply file_is_adv_head|]. intros adv.
+  apply hst_of. intros f [[Wf Hh] Hn]. apply hst_get. pose proof (wf_file_fwf f Wf) as W.
   destruct adv; cbn [negb].
-  - eapply hst_ro_end; [apply (create_file_adv_safe f W)|exact Wf|]. intros _ _. exact Wf.
-  - eapply hst_ro_end; [apply (create_body_nonadv_safe f W (Hn eq_refl))|exact Wf|]. intros _ _. exact Wf.
+  - eapply hst_ro_end; [apply (create_file_adv_safe f W)|exact Wf|]. intros _ _. split; assumption.
+  - eapply hst_ro_end; [apply (create_body_nonadv_safe f W (Hn eq_refl))|exact Wf|]. intros _ _. split; assumption.
 Qed.
+
+Lemma file_create_inv : hoare WF file_create (fun _ => WF) WF.
+Proof. eapply hoare_conseq; [apply file_create_head| | |]; auto. intros a s [Hs _]. exact Hs. Qed.
 
 Lemma file_write_inv bypass : hoare WF (file_write bypass) (fun _ => WF) WF.
 Proof.
